@@ -259,6 +259,7 @@ pub fn run_plan(plan: &Plan) -> RunOut {
 
     let mut w = world::World::new(plan.seed);
     w.fs_yield_pm = plan.fs_yield_pm;
+    w.sched_yield_pm = plan.sched_yield_pm;
     w.disk.fail_writes = plan.disk_fail_writes.iter().cloned().collect();
     w.disk.fail_reads = plan.disk_fail_reads.iter().cloned().collect();
     for (lat, step) in &plan.tracker.steps {
